@@ -89,6 +89,24 @@ func (u *Unit) call(f *Frame, st *State, cc *ssa.CallCommon, res ssa.Value, pos 
 	if con := u.ctx.externs[key]; con != nil {
 		return u.contractCall(f, st, con, callee, args, resTy, pos, key)
 	}
+	// wiring units do not explore callees: anything but tiny helpers is abstracted
+	if u.con != nil && u.con.Wiring && callee.Blocks != nil && u.ctx.inRepo(callee) {
+		n := 0
+		for _, b := range callee.Blocks {
+			n += len(b.Instrs)
+		}
+		if n > 40 || hasLoop(callee) {
+			u.extDefault("abstracted callee (wiring unit): " + u.ctx.funcKey(callee))
+			res := u.freshResults(st, resTy)
+			// the callee may write anything reachable: forget all heaps
+			for _, k := range sortedKeys(u.heapTy) {
+				if t := u.heapTy[k]; t != nil {
+					st.heaps[k] = u.em.fresh(k, u.heapSortU(k, t))
+				}
+			}
+			return res
+		}
+	}
 	// inline
 	if callee.Blocks != nil && u.ctx.inRepo(callee) {
 		if f.depth >= u.depthMax {
